@@ -358,6 +358,50 @@ static std::string large_file(int kind, int nframes)
     return verdict;
 }
 
+// One 1x1 frame whose ids and time stamps have a chosen number of decimal digits, with a chosen metadata string: sweeps the LENGTH of
+// the per-frame description text through every value in a range (formatting buffers, string sections, alignment of what follows).
+static uint64_t pow10u(int d) { uint64_t v = 1; for (int i = 1; i < d; ++i) v *= 10; return v; }
+static std::string description_run(int kind, int d_id, int d_hw, int d_ts, int d_rt, const std::string& meta)
+{
+    ENV = Env();
+    struct Storage* dev = dev_open(kind);
+    if (!dev) return "open-failed|storage_open returned NULL";
+    std::string path = g_scratch + "/desc" + (kind == BasicDevice_Storage_Tiff ? ".tif" : ".dir");
+    h_rm(path);
+    struct StorageProperties props; memset(&props, 0, sizeof props);
+    struct PixelScale ps = { 1, 1 };
+    storage_properties_init(&props, 0, path.c_str(), path.size() + 1, meta.empty() ? nullptr : meta.c_str(), meta.empty() ? 0 : meta.size() + 1, ps, 0);
+    enum DeviceStatusCode rc;
+    DEV(rc = storage_set(dev, &props));
+    storage_properties_destroy(&props);
+    std::string verdict;
+    if (rc != Device_Ok) { DEV(storage_close(dev)); return kind == BasicDevice_Storage_SideBySideTiffJson && meta.empty() ? "" : "set-failed|storage_set refused a valid configuration"; }
+    DEV(rc = storage_start(dev));
+    if (rc != Device_Ok) { DEV(storage_close(dev)); return "start-failed|storage_start failed"; }
+    std::vector<Expect> frames;
+    for (int i = 0; i < 2; ++i) {
+        FrameSpec fs = { 1, 1, SampleType_u8, pow10u(d_id) + (uint64_t)i };
+        std::vector<uint8_t> f = make_frame(fs, 3);
+        struct VideoFrame* v = (struct VideoFrame*)f.data();
+        v->hardware_frame_id = pow10u(d_hw) + (uint64_t)i; v->timestamps.hardware = pow10u(d_ts) + (uint64_t)i; v->timestamps.acq_thread = pow10u(d_rt) + (uint64_t)i;
+        Expect e; e.spec = fs; e.pixels.assign(v->data, v->data + 1); e.hw = v->hardware_frame_id; e.ts_hw = v->timestamps.hardware; e.ts_rt = v->timestamps.acq_thread;
+        frames.push_back(e);
+        std::vector<uint64_t> al((f.size() + 7) / 8); memcpy(al.data(), f.data(), f.size());
+        DEV(rc = storage_append(dev, (const struct VideoFrame*)al.data(), (const struct VideoFrame*)((uint8_t*)al.data() + f.size())));
+        if (rc != Device_Ok) { verdict = "append-failed|storage_append failed without any injected fault"; break; }
+    }
+    DEV(storage_stop(dev));
+    if (verdict.empty()) {
+        std::vector<uint8_t> bytes;
+        std::string tif = kind == BasicDevice_Storage_Tiff ? path : path + "/data.tif";
+        if (!h_read_file(tif, bytes)) verdict = "file-missing|" + tif + " does not exist after stop";
+        else { ++g_parsed; verdict = check_tiff(View{ bytes.data(), bytes.size() }, frames, meta, kind == BasicDevice_Storage_Tiff); }
+    }
+    DEV(storage_close(dev));
+    h_rm(path);
+    return verdict;
+}
+
 int main(int argc, char** argv)
 {
     int cycles = 1; std::string out, replay;
@@ -425,6 +469,28 @@ int main(int argc, char** argv)
                                         ++e.count;
                                     }
                                 }
+    // description lengths: total digits of the four numbers 4..80 (each length once), and metadata strings of 0..200 characters
+    unsigned long long desc_runs = 0;
+    if (cycles == 1)
+        for (int kind : { (int)BasicDevice_Storage_Tiff, (int)BasicDevice_Storage_SideBySideTiffJson }) {
+            auto note2 = [&](const std::string& v, const std::string& spec) {
+                ++desc_runs; ++runs;
+                if (v.empty()) return;
+                std::string clause = v.substr(0, v.find('|')), detail = v.substr(v.find('|') + 1);
+                std::string key = std::string(kind == BasicDevice_Storage_Tiff ? "tiff:" : "tiff-json:") + "description-sweep:" + clause;
+                auto& e = viols[key];
+                if (!e.count) { e.clause = key; e.detail = detail + " [" + spec + "]"; e.spec = "kind=" + std::to_string(kind) + ",shape=0,type=0,cycles=1;n=1,group=0,meta=1,scale=0,uri=0"; }
+                ++e.count;
+            };
+            for (int S = 4; S <= 80; ++S) {
+                int d[4]; for (int k = 0; k < 4; ++k) d[k] = S / 4 + (k < S % 4 ? 1 : 0);
+                note2(description_run(kind, d[0], d[1], d[2], d[3], "{}"), "digits " + std::to_string(d[0]) + "," + std::to_string(d[1]) + "," + std::to_string(d[2]) + "," + std::to_string(d[3]));
+            }
+            for (int L = 0; L <= 200; ++L) {
+                std::string meta = "{\"k\":\"" + std::string((size_t)L, 'x') + "\"}";
+                note2(description_run(kind, 1, 4, 5, 5, meta), "metadata of " + std::to_string(meta.size()) + " characters");
+            }
+        }
     unsigned long long large = 0;
     if (cycles == 1)
         for (int kind : { (int)BasicDevice_Storage_Tiff, (int)BasicDevice_Storage_SideBySideTiffJson }) {
@@ -439,7 +505,7 @@ int main(int argc, char** argv)
     h_rmtree(g_scratch);
     double wall = std::chrono::duration<double>(std::chrono::steady_clock::now() - t0).count();
     FILE* f = out.empty() ? stdout : fopen(out.c_str(), "w");
-    fprintf(f, "{\"runs_with_a_second_device_on_the_same_target\":%llu,\"files_judged_after_a_failed_append\":%llu,\"runs_with_a_short_or_zero_write\":%llu,\"large_files_over_4GiB\":%llu,\"cycles\":%d,\"runs\":%llu,\"configurations_refused_by_the_device\":%llu,\"files_parsed\":%llu,\"exhaustive\":true,\"wall_s\":%.3f,\"samples\":[", g_intrusions, g_after_failure, short_runs, large, cycles, runs, g_refused, g_parsed, wall);
+    fprintf(f, "{\"description_length_runs\":%llu,\"runs_with_a_second_device_on_the_same_target\":%llu,\"files_judged_after_a_failed_append\":%llu,\"runs_with_a_short_or_zero_write\":%llu,\"large_files_over_4GiB\":%llu,\"cycles\":%d,\"runs\":%llu,\"configurations_refused_by_the_device\":%llu,\"files_parsed\":%llu,\"exhaustive\":true,\"wall_s\":%.3f,\"samples\":[", desc_runs, g_intrusions, g_after_failure, short_runs, large, cycles, runs, g_refused, g_parsed, wall);
     for (size_t i = 0; i < samples.size(); ++i) fprintf(f, "%s\"%s\"", i ? "," : "", json_esc(samples[i]).c_str());
     fprintf(f, "],\"violations\":[");
     bool first = true;
